@@ -6,6 +6,7 @@ from . import framework, gen_trace, gen_expr
 
 class C03(framework.PropertyCheck):
     pid = 'C03'
+    theorem_coverage = True
     quick_cases = 300
     thorough_cases = 6000
     rule = ('random e of the trace-reading fragment (depth<=4: signals, INDEX/TS, arithmetic/logic, nested @, scoped/grouped references, virtual '
